@@ -942,27 +942,39 @@ func c12Gen(tier string, rng *rand.Rand, emit func(string)) map[string]interface
 		gate      bool
 	}
 	scopes := []scope{{1, 4, true}, {2, 3, true}, {1, 4, false}}
-	keep := 12 // quick: keep roughly one in `keep`
+	budget := 190 // how many of the enumerated sequences are run (seeded sample); the enumeration itself is complete
 	if thorough {
-		scopes = []scope{{1, 6, true}, {2, 4, true}, {1, 5, false}, {2, 4, false}}
-		keep = 1
+		scopes = []scope{{1, 5, true}, {2, 4, true}, {1, 5, false}, {2, 3, false}}
+		budget = 1500
 	}
-	nExh, nExhAll := 0, 0
+	type exh struct {
+		capacity int
+		sc       scope
+		ops      []string
+	}
+	var all []exh
 	for _, sc := range scopes {
 		for _, capacity := range []int{0, 1, 2} {
+			sc := sc
+			capacity := capacity
 			c12Effective(capacity, sc.n, sc.gate, sc.maxLen, c12Alphabet(sc.n, sc.gate), func(ops []string) {
-				nExhAll++
-				if keep > 1 && rng.Intn(keep) != 0 {
-					return
-				}
-				kind := kinds[rng.Intn(2)]
-				emit(c12Hinted(kind, ctorFor(kind, capacity), capacity, sc.n, sc.gate, ops))
-				nExh++
+				all = append(all, exh{capacity, sc, ops})
 			})
 		}
 	}
-	stats["exhaustive_scope"] = fmt.Sprintf("%v x cap 0..2, effective op sequences; %d of %d emitted", scopes, nExh, nExhAll)
-	stats["exhaustive"] = keep == 1
+	nExh := 0
+	for k, e := range all {
+		// keep with probability budget/len(all), decided by the seeded rng
+		if len(all) > budget && rng.Intn(len(all)) >= budget {
+			continue
+		}
+		_ = k
+		kind := kinds[rng.Intn(2)]
+		emit(c12Hinted(kind, ctorFor(kind, e.capacity), e.capacity, e.sc.n, e.sc.gate, e.ops))
+		nExh++
+	}
+	stats["exhaustive_scope"] = fmt.Sprintf("%v x cap 0..2, effective op sequences; %d of %d emitted", scopes, nExh, len(all))
+	stats["exhaustive"] = nExh == len(all)
 	// (3) random longer schedules, up to 4 senders
 	nRand := 40
 	if thorough {
@@ -998,7 +1010,7 @@ func c12Gen(tier string, rng *rand.Rand, emit func(string)) map[string]interface
 	ms := 60
 	reps := 1
 	if thorough {
-		ms, reps = 400, 6
+		ms, reps = 300, 4
 	}
 	for rep := 0; rep < reps; rep++ {
 		for _, kind := range kinds {
@@ -1020,7 +1032,7 @@ func c12Gen(tier string, rng *rand.Rand, emit func(string)) map[string]interface
 	// (5) spawn trees: sequential histories
 	nTree := 120
 	if thorough {
-		nTree = 1500
+		nTree = 1000
 	}
 	for r := 0; r < nTree; r++ {
 		var ops []string
